@@ -225,3 +225,79 @@ roundtrip_harness!(c18_b64_roundtrip_9, base64::display, base64::Decoder<FixedBu
 // @funcs: base64::Decoder<octseq::Array<8>>::{new,push,finalize}
 // @bound: every sequence of 0..=8 chars, pushing on after errors, octseq::Array<8> target
 decode_harness!(c18_b64_decode_cont_array, base64::Decoder<Array<8>>, new, 6, 8, 8, 10, false);
+
+// ---------------------------------------------- scanner-facing converters
+use domain::base::scan::{ConvertSymbols, StrError, Symbol};
+
+macro_rules! symconv_harness {
+    ($name:ident, $conv:ty, $k:expr, $maxc:expr, $unw:expr) => {
+        #[kani::proof]
+        #[kani::unwind($unw)]
+        fn $name() {
+            let chars: [char; $maxc] = kani::any();
+            let n: usize = kani::any();
+            kani::assume(n <= $maxc);
+            let mut conv = <$conv>::new();
+            let mut out = [0u8; MAXD];
+            let mut olen = 0usize;
+            let mut errored = false;
+            let mut i = 0;
+            while i < n {
+                match ConvertSymbols::<Symbol, StrError>::process_symbol(&mut conv, Symbol::Char(chars[i])) {
+                    Ok(Some(d)) => {
+                        let mut j = 0;
+                        while j < d.len() {
+                            out[olen] = d[j];
+                            olen += 1;
+                            j += 1;
+                        }
+                    }
+                    Ok(None) => {}
+                    Err(_) => {
+                        errored = true;
+                        break;
+                    }
+                }
+                i += 1;
+            }
+            if !errored {
+                match ConvertSymbols::<Symbol, StrError>::process_tail(&mut conv) {
+                    Ok(Some(d)) => {
+                        let mut j = 0;
+                        while j < d.len() {
+                            out[olen] = d[j];
+                            olen += 1;
+                            j += 1;
+                        }
+                    }
+                    Ok(None) => {}
+                    Err(_) => errored = true,
+                }
+            }
+            let mut want = [0u8; MAXD];
+            let w = ref_decode(&chars, n, $k, &mut want);
+            // same verdict and octets as the reference (and therefore as Decoder, see the decode harnesses)
+            assert!(errored == w.is_none());
+            if let Some(wn) = w {
+                assert!(olen == wn);
+                let mut j = 0;
+                while j < wn {
+                    assert!(out[j] == want[j]);
+                    j += 1;
+                }
+            }
+            kani::cover!(errored, "ill-formed text rejected");
+            kani::cover!(!errored && olen > 0, "text converted");
+        }
+    };
+}
+
+// @funcs: base64::SymbolConverter::{new,process_symbol,process_char,process_tail}
+// @bound: every sequence of 0..=8 chars fed symbol by symbol, stopping at the first error as the scanner does: verdict and octets = independent RFC 4648 reference (so the converter agrees with Decoder and with any other chunking of the same text)
+symconv_harness!(c18_b64_symbol_converter, base64::SymbolConverter, 6, 8, 10);
+// @funcs: base32::SymbolConverter::{new,process_symbol,process_char,process_tail}
+// @bound: every sequence of 0..=9 chars fed symbol by symbol
+symconv_harness!(c18_b32_symbol_converter, base32::SymbolConverter, 5, 9, 11);
+// @funcs: base16::SymbolConverter::{new,process_symbol,process_tail}
+// @bound: every sequence of 0..=5 chars fed symbol by symbol
+symconv_harness!(c18_b16_symbol_converter, base16::SymbolConverter, 4, 5, 10);
